@@ -11,6 +11,9 @@ Local Open Scope N_scope.
 (* the fixed 84-byte head of a row, as the iterator reads it: u32 row length, then
    EventLogRecord::decode (time, previous commit, commit), then the u32 data length; the data
    and the trailing length are skipped by seeking to row_pos + row_len + 8 *)
+(* seek + read: a position past the end of the file reads nothing (the comparison keeps the extracted
+   code from counting up to a position of 2^32 in unary) *)
+Definition seek (pos : N) (file : bytes) : bytes := if lenb file <? pos then [] else skipn (N.to_nat pos) file.
 Definition p_row : parser (N * bytes) :=
   n <- p_u32 ;; _ <- p_time ;; _ <- p_fixed 32 ;; c <- p_fixed 32 ;; _ <- p_u32 ;; ret (n, c).
 
@@ -21,7 +24,7 @@ Fixpoint scan (fuel : nat) (file : bytes) (pos : N) (acc : list bytes) : option 
   | O => None
   | S k =>
     if pos =? lenb file then Some (rev acc)
-    else match p_row (skipn (N.to_nat pos) file) with
+    else match p_row (seek pos file) with
          | None => None
          | Some ((n, c), _) => scan k file (pos + n + 8) (c :: acc)
          end
@@ -69,11 +72,11 @@ Fixpoint scan_back (fuel : nat) (file : bytes) (hdr pos : N) (acc : list bytes) 
   | S k =>
     if pos =? hdr then Some (rev acc)
     else if pos <? hdr + 4 then None
-    else match p_u32 (skipn (N.to_nat (pos - 4)) file) with
+    else match p_u32 (seek (pos - 4) file) with
          | None => None
          | Some (n, _) =>
            if pos <? hdr + n + 8 then None
-           else match p_row_tail (skipn (N.to_nat (pos - (n + 8) + 4)) file) with
+           else match p_row_tail (seek (pos - (n + 8) + 4) file) with
                 | None => None
                 | Some (c, _) => scan_back k file hdr (pos - (n + 8)) (c :: acc)
                 end
